@@ -550,6 +550,14 @@ pub fn explore_scenario(sc: &Scenario, bound: usize, deadline: Instant, run: &Ru
                     }
                 }
                 if let Some(o) = &ex.outcome {
+                    if props.contains(&"C08") && o.memory.starts_with("receipt start_block") {
+                        run.violation(
+                            &format!("receipt:start-block-differs-from-what-was-stored:under-schedule:{}", sc.name),
+                            format!("scenario {}: {}", sc.name, o.memory),
+                            replay(),
+                            ex.points.len(),
+                        );
+                    }
                     let mut g = outcomes.lock().unwrap();
                     g.insert(o.clone());
                     drop(g);
@@ -694,6 +702,24 @@ fn run_s(prop: &'static str, tier: Tier) -> i32 {
     run.assume("sequential consistency for the two AtomicU32 heights; no unsynchronised shared state (the crates contain no unsafe code and no statics)");
     run.assume("the simulated bitcoind is only reached under the carrier lock / from the polling thread");
     run.finish()
+}
+
+/// C08 under concurrency: the receipt's start block is the one stored, whatever block event the request
+/// overlaps with (every schedule with at most `bound` pre-emptions of the scenarios in which an
+/// add_appointment runs next to a chain event). Returns (schedules, scenarios).
+pub fn receipts_under_schedules(run: &Run, tier: Tier, budget: Duration) -> (u64, usize) {
+    let bound = if tier == Tier::Quick { 2 } else { 3 };
+    let scs: Vec<Scenario> = scenarios(tier).into_iter().filter(|s| s.ops.contains(&SOp::Poll) && s.ops.iter().any(|o| matches!(o, SOp::Add { .. }))).collect();
+    let started = Instant::now();
+    let n = scs.len();
+    let mut total = 0u64;
+    for (i, sc) in scs.iter().enumerate() {
+        let remaining = budget.saturating_sub(started.elapsed());
+        let share = remaining / (n - i) as u32;
+        let st = explore_scenario(sc, bound, Instant::now() + share.max(Duration::from_millis(500)), run, &["C08"]);
+        total += st.schedules;
+    }
+    (total, n)
 }
 
 pub fn c10(tier: Tier) -> i32 {
